@@ -528,9 +528,9 @@ def directed():
         [{"op": "test", "where": "in", "m": 10, "unl": True, "qseed": 26, "print": True}, {"op": "evaluate"}],
     ]
     # history with continued dimension-wise refinement: everything evaluated before must be re-evaluated against the refined estimators
-    refine_seq = [{"op": "call", "where": "in", "m": 10, "unl": False, "qseed": 31}, {"op": "test", "where": "part", "m": 10, "unl": True, "qseed": 32, "print": False},
-                  {"op": "call_learning"}, {"op": "evaluate"}, {"op": "refine", "evals": 200}, {"op": "evaluate"},
-                  {"op": "test", "where": "in", "m": 8, "unl": False, "qseed": 33, "print": False}, {"op": "refine", "evals": 400}, {"op": "evaluate"}]
+    refine_seq = [{"op": "call", "where": "in", "m": 8, "unl": False, "qseed": 31}, {"op": "test", "where": "part", "m": 8, "unl": True, "qseed": 32, "print": False},
+                  {"op": "evaluate"}, {"op": "refine", "evals": 120}, {"op": "evaluate"},
+                  {"op": "test", "where": "in", "m": 6, "unl": False, "qseed": 33, "print": False}, {"op": "refine", "evals": 250}, {"op": "evaluate"}]
     out = []
     for variant in range(7):
         for s in seqs:
